@@ -325,7 +325,14 @@ func ownLocal(f *an.Fn, o types.Object) (types.Object, bool) {
 	if f.Body == nil || o == nil {
 		return o, false
 	}
-	return o, o.Pos() >= f.Body.Pos() && o.Pos() < f.Body.End()
+	if o.Pos() >= f.Body.Pos() && o.Pos() < f.Body.End() {
+		return o, true
+	}
+	// a local of a new helper that is analysed in place (spliced into f) is as good as f's own
+	if owner := f.P.OwnerFn(o.Pos()); owner != nil && owner.Root() != f.Root() && f.P.IsNewHelper(owner.Root()) {
+		return o, true
+	}
+	return o, false
 }
 
 // throughRuntime: the selector's base is a *Runtime (st.variables, st.scope.variables, a.runtime.blocks) rather than a bare *scope walker
